@@ -202,8 +202,16 @@ impl Exec {
         let slot = self.trees.get(&id).unwrap();
         let t = slot.tree.as_ref().unwrap();
         let base = t.base();
-        let evs = t.events(None);
-        let iter = t.iter();
+        let obs = catch_unwind(AssertUnwindSafe(|| (t.events(None), t.iter())));
+        let (evs, iter) = match obs {
+            Ok(x) => x,
+            Err(_) => {
+                self.fail("C15", "in_order_traversal / node_iter panicked on a tree built by upserts".into());
+                self.fail("C17", "in_order_traversal / node_iter panicked: the traversal APIs do not agree".into());
+                return;
+            }
+        };
+        let slot = self.trees.get(&id).unwrap();
         let content: Vec<_> = slot
             .content
             .iter()
